@@ -453,17 +453,17 @@ open NGF.StatusPrep
 /-- For every change type that applies something, a failing apply (files, reload, or Plus upstream update) is what
 `updateStatuses` receives and what `latestReloadResult` keeps. -/
 theorem failure_surfaces_for_every_change_type (plus : Bool) (s : HState) (ct : ChangeType) (o : Outcome)
-    (hct : ct ≠ .noChange) (hfail : applyErr plus ct o = true) :
+    (hct : ct ≠ .noChange) (hfail : applyErr plus s.latestErr ct o = true) :
     (step plus s ct o).2 = some true ∧ (step plus s ct o).1.latestErr = true ∧ (step plus s ct o).1.lastFail = true := by
   cases ct with
   | noChange => exact absurd rfl hct
-  | endpointsOnly => simp [step, hfail]
-  | clusterState => simp [step, hfail]
+  | endpointsOnly => simp [step, stepWith, hfail]
+  | clusterState => simp [step, stepWith, hfail]
 
 /-- … and what the statuses written after such a batch say, for every graph summary: nothing is Programmed=True
 and no route parent is Accepted=True. -/
 theorem failed_batch_statuses (plus : Bool) (s : HState) (ct : ChangeType) (o : Outcome) (su : Summary)
-    (hct : ct ≠ .noChange) (hfail : applyErr plus ct o = true) (hwf : su.wf = true) :
+    (hct : ct ≠ .noChange) (hfail : applyErr plus s.latestErr ct o = true) (hwf : su.wf = true) :
     ∃ e, (step plus s ct o).2 = some e ∧
       (prepare { su with reloadErr := e }).noProgrammedTrue = true ∧
       ∀ r ∈ su.routes, ∀ ref ∈ r.parentRefs, acceptedTrue r.conds e ref = false := by
@@ -473,23 +473,25 @@ theorem failed_batch_statuses (plus : Bool) (s : HState) (ct : ChangeType) (o : 
     exact (reload_failed_route_not_accepted "c" r.conds 0 ref).2
 
 theorem success_clears (plus : Bool) (s : HState) (ct : ChangeType) (o : Outcome)
-    (hct : ct ≠ .noChange) (hok : applyErr plus ct o = false) :
+    (hct : ct ≠ .noChange) (hok : applyErr plus s.latestErr ct o = false) :
     (step plus s ct o).2 = some false ∧ (step plus s ct o).1.latestErr = false := by
   cases ct with
   | noChange => exact absurd rfl hct
-  | endpointsOnly => simp [step, hok]
-  | clusterState => simp [step, hok]
+  | endpointsOnly => simp [step, stepWith, hok]
+  | clusterState => simp [step, stepWith, hok]
 
 /-- a batch without changes neither touches the recorded result nor issues statuses -/
 theorem nochange_is_silent (plus : Bool) (s : HState) (o : Outcome) : step plus s .noChange o = (s, none) := rfl
 
 /-- each failure kind is a failure for each applying change type where it is exercised -/
-theorem applyErr_cases (plus : Bool) (o : Outcome) :
-    (applyErr plus .clusterState o = (!o.writeOk || !o.reloadOk || (plus && !o.apiOk))) ∧
-    (applyErr false .endpointsOnly o = (!o.writeOk || !o.reloadOk)) ∧
-    (applyErr true .endpointsOnly o = !o.apiOk) := by
+theorem applyErr_cases (plus prevErr : Bool) (o : Outcome) :
+    (applyErr plus prevErr .clusterState o = (!o.writeOk || !o.reloadOk || (plus && !o.apiOk))) ∧
+    (applyErr false prevErr .endpointsOnly o = (!o.writeOk || !o.reloadOk)) ∧
+    (applyErr true false .endpointsOnly o = !o.apiOk) ∧
+    -- since c94173a: with Plus, after a remembered failure, an endpoints-only change is a full apply
+    (applyErr true true .endpointsOnly o = (!o.writeOk || !o.reloadOk || !o.apiOk)) := by
   obtain ⟨w, r, a⟩ := o
-  cases plus <;> cases w <;> cases r <;> cases a <;> simp [applyErr, nginxConfErr, upstreamsErr]
+  cases plus <;> cases prevErr <;> cases w <;> cases r <;> cases a <;> simp [applyErr, apiOnly, nginxConfErr, upstreamsErr]
 
 /-- the recorded result is always the failure of the last apply … -/
 theorem latestErr_is_lastFail (plus : Bool) (bs : List (ChangeType × Outcome)) (s : HState)
@@ -499,15 +501,39 @@ theorem latestErr_is_lastFail (plus : Bool) (bs : List (ChangeType × Outcome)) 
   | cons b rest ih =>
     obtain ⟨ct, o⟩ := b
     apply ih
-    cases ct <;> simp [step, h]
+    cases ct <;> simp [step, stepWith, h]
 
-/-- … and without NGINX Plus that is the truth for every batch history: the handler reports a failure exactly
-when NGINX does not run the last applied configuration. -/
-theorem oss_reload_result_is_truth (bs : List (ChangeType × Outcome)) :
-    (run false init bs).latestErr = (run false init bs).failed := by
+/-- invariant step: a stale configuration implies a remembered failure -/
+theorem step_stale_implies_lastFail (plus : Bool) (s : HState) (ct : ChangeType) (o : Outcome)
+    (h1 : s.latestErr = s.lastFail) (h2 : s.stale = true → s.lastFail = true) :
+    (step plus s ct o).1.stale = true → (step plus s ct o).1.lastFail = true := by
+  obtain ⟨w, r, a⟩ := o
+  cases ct with
+  | noChange => exact h2
+  | clusterState =>
+    simp only [step, stepWith, fullApply, applyErr, nginxConfErr, if_true]
+    cases w <;> cases r <;> simp
+  | endpointsOnly =>
+    cases hap : apiOnly plus s.latestErr with
+    | true =>
+      simp only [step, stepWith, fullApply, applyErr, hap, Bool.not_true, Bool.false_eq_true, if_false, if_true]
+      intro hst
+      have hl := h2 hst
+      rw [← h1] at hl
+      simp [apiOnly, hl] at hap
+    | false =>
+      simp only [step, stepWith, fullApply, applyErr, hap, Bool.not_false, if_true, Bool.false_eq_true, if_false, nginxConfErr]
+      cases w <;> cases r <;> simp
+
+/-- … and that is the TRUTH for every batch history, with or without NGINX Plus (full strength since /repo c94173a; before the
+fix the Plus case had an exception, see `prefix_plus_reports_success_while_stale`): the handler remembers a failure exactly when
+NGINX does not run the last applied configuration. Invariant: a stale configuration implies a remembered failure, and an
+endpoints-only change goes through the Plus API alone only when nothing is remembered. -/
+theorem reload_result_is_truth (plus : Bool) (bs : List (ChangeType × Outcome)) :
+    (run plus init bs).latestErr = (run plus init bs).failed := by
   have key : ∀ (bs : List (ChangeType × Outcome)) (s : HState),
-      s.latestErr = s.lastFail → s.stale = s.lastFail →
-      (run false s bs).latestErr = (run false s bs).lastFail ∧ (run false s bs).stale = (run false s bs).lastFail := by
+      s.latestErr = s.lastFail → (s.stale = true → s.lastFail = true) →
+      (run plus s bs).latestErr = (run plus s bs).lastFail ∧ ((run plus s bs).stale = true → (run plus s bs).lastFail = true) := by
     intro bs
     induction bs with
     | nil => intro s h1 h2; exact ⟨h1, h2⟩
@@ -515,24 +541,28 @@ theorem oss_reload_result_is_truth (bs : List (ChangeType × Outcome)) :
       intro s h1 h2
       obtain ⟨ct, o⟩ := b
       apply ih
-      · cases ct <;> simp [step, h1]
-      · cases ct <;>
-          simp [step, h2, fullApply, applyErr, nginxConfErr, upstreamsErr]
-  obtain ⟨h1, h2⟩ := key bs init rfl rfl
-  simp [HState.failed, h1, h2]
+      · cases ct <;> simp [step, stepWith, h1]
+      · exact step_stale_implies_lastFail plus s ct o h1 h2
+  obtain ⟨h1, h2⟩ := key bs init rfl (by simp [init])
+  cases hs : (run plus init bs).stale with
+  | false => simp [HState.failed, hs, h1]
+  | true => simp [HState.failed, hs, h1, h2 hs]
 
-/-- WITNESS (finding C07:…stale-after-plus-endpoints-only-update): with NGINX Plus, a cluster-state batch whose reload
-fails followed by an endpoints-only batch whose API update succeeds leaves `latestReloadResult` empty although
-NGINX never loaded the configuration — statuses turn Programmed=True / Accepted=True. -/
-theorem plus_reports_success_while_stale :
-    let s := run true init [(.clusterState, ⟨true, false, true⟩), (.endpointsOnly, ⟨true, true, true⟩)]
-    s.latestErr = false ∧ s.failed = true := by decide
+/-- the OSS instance (kept under its old name) -/
+theorem oss_reload_result_is_truth (bs : List (ChangeType × Outcome)) :
+    (run false init bs).latestErr = (run false init bs).failed := reload_result_is_truth false bs
 
-/-- with Plus the recorded result is still the truth whenever the last full apply succeeded -/
-theorem plus_reload_result_partial (bs : List (ChangeType × Outcome)) (hfresh : (run true init bs).stale = false) :
-    (run true init bs).latestErr = (run true init bs).failed := by
-  have := latestErr_is_lastFail true bs init rfl
-  simp [HState.failed, hfresh, this]
+/-- PRE-FIX WITNESS (regression detector; fixed by /repo c94173a, formerly finding C07:…stale-after-plus-endpoints-only-update):
+with the old EndpointsOnlyChange arm (`if h.cfg.plus`), a cluster-state batch whose reload fails followed by an endpoints-only
+batch whose API update succeeds leaves `latestReloadResult` empty although NGINX never loaded the configuration — statuses
+turned Programmed=True / Accepted=True. With the repaired arm the same history keeps the failure. -/
+theorem prefix_plus_reports_success_while_stale :
+    (let s := runPreFix true init [(.clusterState, ⟨true, false, true⟩), (.endpointsOnly, ⟨true, true, true⟩)]
+     s.latestErr = false ∧ s.failed = true) ∧
+    (let s := run true init [(.clusterState, ⟨true, false, true⟩), (.endpointsOnly, ⟨true, true, false⟩)]
+     s.latestErr = true ∧ s.failed = true) ∧
+    (let s := run true init [(.clusterState, ⟨true, false, true⟩), (.endpointsOnly, ⟨true, true, true⟩)]
+     s.latestErr = false ∧ s.failed = false) := by decide
 
 /-! ### Gateway status writes outside batch processing (NGF front Service upsert / delete callbacks) -/
 
@@ -541,36 +571,36 @@ every Gateway status write done outside batch processing — in any later batch 
 else it carries, until the next applying batch — uses the failure: NoChange batches in between do not clear it, and the
 write of a batch that itself applies something happens before that apply, so it still uses the failure. -/
 theorem failure_surfaces_for_out_of_batch_writes (plus : Bool) (s : HState) (ct : ChangeType) (o : Outcome)
-    (hct : ct ≠ .noChange) (hfail : applyErr plus ct o = true)
+    (hct : ct ≠ .noChange) (hfail : applyErr plus s.latestErr ct o = true)
     (idle : List Outcome) (ct' : ChangeType) (o' : Outcome) :
     (stepSvc plus (run plus (step plus s ct o).1 (idle.map fun x => (ChangeType.noChange, x))) true ct' o').2.1 = some true := by
   have hidle : ∀ (l : List Outcome) (t : HState), run plus t (l.map fun x => (ChangeType.noChange, x)) = t := by
     intro l
     induction l with
     | nil => intro t; rfl
-    | cons x xs ih => intro t; simp [run, step, ih]
+    | cons x xs ih => intro t; simp [run, step, stepWith, ih]
   rw [hidle]
   simp [stepSvc, outOfBatchWrite, (failure_surfaces_for_every_change_type plus s ct o hct hfail).2.1]
 
 /-- … and what such a write says, for every graph summary: nothing is Programmed=True (the Gateway, its listeners, ignored
 Gateways), composed with `reload_failed_nothing_programmed` -/
 theorem out_of_batch_write_after_failure_not_programmed (plus : Bool) (s : HState) (ct : ChangeType) (o : Outcome)
-    (su : Summary) (hct : ct ≠ .noChange) (hfail : applyErr plus ct o = true) (hwf : su.wf = true) :
+    (su : Summary) (hct : ct ≠ .noChange) (hfail : applyErr plus s.latestErr ct o = true) (hwf : su.wf = true) :
     (prepare { su with reloadErr := outOfBatchWrite (step plus s ct o).1 }).noProgrammedTrue = true := by
   have h : outOfBatchWrite (step plus s ct o).1 = true :=
     (failure_surfaces_for_every_change_type plus s ct o hct hfail).2.1
   rw [h]
   exact reload_failed_nothing_programmed { su with reloadErr := true } rfl (by simpa [Summary.wf] using hwf)
 
-/-- without NGINX Plus an out-of-batch write always uses the truth, for every batch history -/
-theorem out_of_batch_write_is_truth_oss (bs : List (ChangeType × Outcome)) :
-    outOfBatchWrite (run false init bs) = (run false init bs).failed := oss_reload_result_is_truth bs
+/-- an out-of-batch write always uses the truth, for every batch history, with or without NGINX Plus (unconditional since c94173a) -/
+theorem out_of_batch_write_is_truth (plus : Bool) (bs : List (ChangeType × Outcome)) :
+    outOfBatchWrite (run plus init bs) = (run plus init bs).failed := reload_result_is_truth plus bs
 
 /-- a batch that only carries the NGF-Service event (NoChange) leaves the Gateway status the callback wrote; a batch that
 applies something overwrites it with its own result -/
 theorem lastGatewayWrite_cases (plus : Bool) (s : HState) (o : Outcome) (ct : ChangeType) (hct : ct ≠ .noChange) :
     lastGatewayWrite plus s true .noChange o = some s.latestErr ∧ lastGatewayWrite plus s false .noChange o = none ∧
-    lastGatewayWrite plus s true ct o = some (applyErr plus ct o) := by
+    lastGatewayWrite plus s true ct o = some (applyErr plus s.latestErr ct o) := by
   refine ⟨rfl, rfl, ?_⟩
   cases ct with
   | noChange => exact absurd rfl hct
@@ -581,7 +611,7 @@ theorem lastGatewayWrite_cases (plus : Bool) (s : HState) (o : Outcome) (ct : Ch
 out-of-batch write after a failed apply claim success, for every change type and failure kind — the batch's own statuses (they
 get the result as a parameter) stay right, which is why only the callbacks show it -/
 theorem by_value_before_error_refuted (plus : Bool) (s : HState) (ct : ChangeType) (o : Outcome)
-    (hct : ct ≠ .noChange) (hfail : applyErr plus ct o = true) :
+    (hct : ct ≠ .noChange) (hfail : applyErr plus s.latestErr ct o = true) :
     (stepStoreBeforeError plus s ct o).2 = some true ∧
     outOfBatchWrite (stepStoreBeforeError plus s ct o).1 = false ∧
     (stepStoreBeforeError plus s ct o).1.failed = true ∧
@@ -602,8 +632,7 @@ theorem by_value_before_error_refuted (plus : Bool) (s : HState) (ct : ChangeTyp
 
 /-- `success_clears_failure`: for EVERY batch history (with or without NGINX Plus), whenever NGINX runs the last applied
 configuration (`failed = false`) the remembered result is "no error" — so the statuses of the last applying batch and every
-out-of-batch Gateway status write after it are those of a fresh handler with a nil reload result. (The Plus exception is in
-the OTHER direction only: `plus_reports_success_while_stale`.) -/
+out-of-batch Gateway status write after it are those of a fresh handler with a nil reload result. -/
 theorem success_clears_failure (plus : Bool) (bs : List (ChangeType × Outcome))
     (hok : (run plus init bs).failed = false) :
     (run plus init bs).latestErr = false ∧ outOfBatchWrite (run plus init bs) = false := by
@@ -616,14 +645,14 @@ theorem success_clears_failure (plus : Bool) (bs : List (ChangeType × Outcome))
 /-- fail → succeed → (NoChange)* → a batch with the NGF-Service event: the out-of-batch write and, if the batch itself applies
 nothing, the Gateway status that stands afterwards use "no error" -/
 theorem success_clears_failure_for_out_of_batch_writes (plus : Bool) (s : HState) (ct ct' : ChangeType) (o o' : Outcome)
-    (hct' : ct' ≠ .noChange) (hok : applyErr plus ct' o' = false) (idle : List Outcome) (o'' : Outcome) :
+    (hct' : ct' ≠ .noChange) (hok : applyErr plus (step plus s ct o).1.latestErr ct' o' = false) (idle : List Outcome) (o'' : Outcome) :
     let t := run plus (step plus (step plus s ct o).1 ct' o').1 (idle.map fun x => (ChangeType.noChange, x))
     (stepSvc plus t true .noChange o'').2.1 = some false ∧ lastGatewayWrite plus t true .noChange o'' = some false := by
   have hidle : ∀ (l : List Outcome) (t : HState), run plus t (l.map fun x => (ChangeType.noChange, x)) = t := by
     intro l
     induction l with
     | nil => intro t; rfl
-    | cons x xs ih => intro t; simp [run, step, ih]
+    | cons x xs ih => intro t; simp [run, step, stepWith, ih]
   have h := (success_clears plus (step plus s ct o).1 ct' o' hct' hok).2
   simp only [hidle]
   exact ⟨by simp [stepSvc, outOfBatchWrite, h], by rw [(lastGatewayWrite_cases plus _ o'' .clusterState (by decide)).1, h]⟩
@@ -632,7 +661,7 @@ theorem success_clears_failure_for_out_of_batch_writes (plus : Bool) (s : HState
 success: after fail → succeed (any applying change types, any failure kind) the batch's own statuses and every later
 out-of-batch write still say "failed" although NGINX runs the last applied configuration -/
 theorem sticky_error_refuted (s : HState) (ct ct' : ChangeType) (o o' : Outcome)
-    (hct : ct ≠ .noChange) (hct' : ct' ≠ .noChange) (hfail : applyErr false ct o = true) (hok : applyErr false ct' o' = false) :
+    (hct : ct ≠ .noChange) (hct' : ct' ≠ .noChange) (hfail : applyErr false false ct o = true) (hok : applyErr false false ct' o' = false) :
     let t := (stepStickyError false (stepStickyError false s ct o).1 ct' o')
     t.2 = some true ∧ outOfBatchWrite t.1 = true ∧
     (step false (step false s ct o).1 ct' o').2 = some false := by
@@ -641,13 +670,13 @@ theorem sticky_error_refuted (s : HState) (ct ct' : ChangeType) (o o' : Outcome)
   | endpointsOnly =>
     cases ct' with
     | noChange => exact absurd rfl hct'
-    | endpointsOnly => simp [stepStickyError, step, outOfBatchWrite, hfail, hok]
-    | clusterState => simp [stepStickyError, step, outOfBatchWrite, hfail, hok]
+    | endpointsOnly => (simp [applyErr, apiOnly] at hfail hok; simp [stepStickyError, step, stepWith, outOfBatchWrite, applyErr, apiOnly, hfail, hok])
+    | clusterState => (simp [applyErr, apiOnly] at hfail hok; simp [stepStickyError, step, stepWith, outOfBatchWrite, applyErr, apiOnly, hfail, hok])
   | clusterState =>
     cases ct' with
     | noChange => exact absurd rfl hct'
-    | endpointsOnly => simp [stepStickyError, step, outOfBatchWrite, hfail, hok]
-    | clusterState => simp [stepStickyError, step, outOfBatchWrite, hfail, hok]
+    | endpointsOnly => (simp [applyErr, apiOnly] at hfail hok; simp [stepStickyError, step, stepWith, outOfBatchWrite, applyErr, apiOnly, hfail, hok])
+    | clusterState => (simp [applyErr, apiOnly] at hfail hok; simp [stepStickyError, step, stepWith, outOfBatchWrite, applyErr, apiOnly, hfail, hok])
 
 /-- concrete: reload fails, the next cluster-state batch reloads fine: truth "runs the last configuration", the sticky variant
 still remembers the failure, the real step does not -/
